@@ -518,10 +518,10 @@ def c06(ck):
     if ck.violations:
         return
     # co-enumeration: every short word sequence in five contexts (behind a header, in a list, in an item, as header, behind a message)
-    ck.rule.append("co-enumeration: every sequence of <= 2 (quick) / 3 words of a 38-word vocabulary in 5 contexts, and <= 3 / 4 words of a "
+    ck.rule.append("co-enumeration: every sequence of <= 2 (quick) / 3 words of a 38-word vocabulary in 6 contexts, and <= 3 / 4 words of a "
                    "13-word one in list position")
-    _sml_enum(ck, q(ck, ["top:full:2,list:full:2,item:full:2,head:full:2,two:full:2,list:small:3"],
-                    ["top:full:3", "list:full:3", "head:full:3", "two:full:3", "list:small:4"]), ["InvC06"])
+    _sml_enum(ck, q(ck, ["top:full:2,list:full:2,item:full:2,head:full:2,two:full:2,open:full:2,list:small:3,open:small:3"],
+                    ["top:full:3", "list:full:3", "head:full:3", "two:full:3", "open:full:3", "list:small:4,open:small:4"]), ["InvC06"])
     if ck.violations:
         return
     ck.trace("lex", "lex", ["-n", q(ck, 1500, 15000)], "TraceSml", "TraceSml.cfg", [], agree=["InvAgreeLex"],
